@@ -28,6 +28,8 @@ case "${1:-}" in
     shift
     # generators are functions of (seed, index, tier) alone and satisfy their own well-formedness guards
     go test -count=1 -run TestGeneratorsAreFunctions ./internal/props || { echo "SELFTEST-TROUBLE: a generator is not a function of its seed"; exit 2; }
+    # the overlay rewriting (rules R5, R7) keeps the meaning of the code it rewrites
+    go test -count=1 ./internal/instrument || { echo "SELFTEST-TROUBLE: the overlay rewriting changes the meaning of a synthetic package"; exit 2; }
     exec "$BIN" selftest "$@" ;;
   replay)
     [ -x "$BIN" ] || build_orch
